@@ -1,15 +1,19 @@
 #!/bin/bash
-# usage: seedtest.sh <patch.diff> <property> [tier]  -- applies a seeded change to /repo, runs the suite and the check, reverts.
-patch="$1"; prop="$2"; tier="${3:-quick}"
-cd /repo || exit 2
-if [ -n "$(git status --porcelain)" ]; then echo "/repo not clean"; exit 2; fi
+# usage: seedtest.sh <patch.diff> <property> [tier]  -- applies a seeded change to a scratch worktree of /repo
+# (never to /repo itself), runs the unedited suite there and the check against it (VERIF_REPO), removes the worktree.
+patch="$(readlink -f "$1")"; prop="$2"; tier="${3:-quick}"
+wt=$(mktemp -d /tmp/seedtest-XXXXXX); rmdir "$wt"
+git -C /repo worktree add --detach "$wt" HEAD >/dev/null 2>&1 || { echo "cannot create worktree"; exit 2; }
+trap 'git -C /repo worktree remove --force "$wt" >/dev/null 2>&1; rm -rf "$wt"' EXIT
+cd "$wt" || exit 2
 git apply "$patch" || { echo "patch does not apply"; exit 2; }
 export GOFLAGS=-mod=mod GOPROXY=off
 bfail=$(go build ./... 2>&1 | head -3)
 tfail=$(go test -vet=off -count=1 ./... 2>&1 | grep -v "no test files" | grep -v "^ok" | head -5)
 echo "build: ${bfail:-ok}  suite: ${tfail:-pass}"
-cd /verif && ./check "$prop" "$tier" > /tmp/seedtest-$prop.log 2>&1; rc=$?
-grep -m3 "VIOLATION\|INCONCLUSIVE\|HARNESS-STALE" /tmp/seedtest-$prop.log
-grep -m2 "counterexample\|reproduced" /tmp/seedtest-$prop.log | cut -c1-220
+log=$(mktemp /tmp/seedtest-log-XXXXXX)
+cd /verif && VERIF_REPO="$wt" ./check "$prop" "$tier" > "$log" 2>&1; rc=$?
+grep -m3 "VIOLATION\|INCONCLUSIVE\|HARNESS-STALE" "$log"
+grep -m2 "counterexample\|reproduced" "$log" | cut -c1-220
 echo "check $prop $tier exit=$rc"
-git -C /repo checkout -- . ; git -C /repo status --porcelain | head -3
+rm -f "$log"
